@@ -264,6 +264,144 @@ def sibs_of(f, parents, p):
     return parents[i - 1].children if i else f
 
 
+class TLeafref(yanggen.Type):
+    json_kind = "number"
+
+    def __init__(self, path):
+        self.path = path
+
+    def yang(self):
+        return 'type leafref { path "%s"; }' % self.path
+
+    def valid(self, rng):
+        return "7"
+
+
+def nested_family(rng, xpath=True):
+    """(module, instance, expected classes) for implicit nodes under NESTED choices: choice o -> case a -> choice i ->
+    case x -> choice j -> case p, with a default leaf, a non-presence container (with a mandatory leaf and a must) and
+    further nodes at every level. Which cases exist is decided by the explicit data - often ONLY by nodes of the
+    innermost choice - and the verdicts of must / leafref / when / mandatory depend on the defaults and containers that
+    RFC 7950 7.6.1 / 7.5.1 put into the outer cases then. xpath=False: the same without must / when / leafref (for the
+    Coq model). The expectation is computed here from the explicit data (independent of libyang)."""
+    Y = yanggen
+    S, I = Y.TString(), Y.TInt("int8")
+    mu = (lambda x: (x, None, None)) if xpath else (lambda x: None)
+    ad, am, adf = Y.SLeaf("ad", I, default="5"), Y.SLeaf("am", S, mandatory=True), Y.SLeaf("adf", I, default="3")
+    anp = Y.SContainer("anp", [am, adf], must=mu("../sel = 'ok'"))
+    xe, xd, xm = Y.SLeaf("xe", S), Y.SLeaf("xd", I, default="7"), Y.SLeaf("xm", S, mandatory=True)
+    xnp = Y.SContainer("xnp", [xm], must=mu("../sel != 'no-x'"))
+    pe, pd, qe, ye = Y.SLeaf("pe", S), Y.SLeaf("pd", I, default="9"), Y.SLeaf("qe", S), Y.SLeaf("ye", S)
+    pl = Y.SLeafList("pl", S, minel=1)
+    pnp = Y.SContainer("pnp", [pl])
+    be, bd = Y.SLeaf("be", S), Y.SLeaf("bd", I, default="2")
+    j = Y.SChoice("j", [("p", [pe, pd, pnp]), ("q", [qe])])
+    i = Y.SChoice("i", [("x", [xe, xd, xnp, j]), ("y", [ye])])
+    o = Y.SChoice("o", [("a", [ad, anp, i]), ("b", [be, bd])])
+    sel = Y.SLeaf("sel", S)
+    top_nodes = [sel, o]
+    if xpath:
+        chk = Y.SLeaf("chk", S, must=("../ad = 5 and (not(../xe) or ../xd = 7)", None, None))
+        lr = Y.SLeaf("lr", TLeafref("../xd"))
+        lr2 = Y.SLeaf("lr2", TLeafref("../anp/adf"))
+        wh = Y.SLeaf("wh", S, when=("../pd = 9 or ../ad = 1", None))
+        top_nodes += [chk, lr, lr2, wh]
+    top = Y.SContainer("top", top_nodes, presence=True)
+    m = Y.Module("m1", [top])
+
+    # explicit data: a path through the cases, optional direct nodes at every level
+    D = lambda sn, v=None, ch=None: Y.DNode(sn, v, ch)          # noqa: E731
+    ch = []
+    selv = rng.choice(["ok", "ok", "ok", "bad", "no-x"])
+    if rng.random() < 0.9:
+        ch.append(D(sel, selv))
+    else:
+        selv = None
+    have = {}
+    r = rng.random()
+    bare_a, bare_x = rng.random() < 0.35, rng.random() < 0.35     # the only explicit data of the case sit in the nested choice
+    if r < 0.8:                                   # case a
+        if not bare_a and rng.random() < 0.3:
+            have["ad"] = rng.choice(["5", "1", "4"])
+            ch.append(D(ad, have["ad"]))
+        anp_ch = []
+        if not bare_a and rng.random() < 0.75:
+            have["am"] = "m"
+            anp_ch.append(D(am, "m"))
+        if not bare_a and rng.random() < 0.2:
+            have["adf"] = rng.choice(["3", "8"])
+            anp_ch.append(D(adf, have["adf"]))
+        if anp_ch:
+            ch.append(D(anp, None, anp_ch))
+        r2 = rng.random()
+        if r2 < 0.7:                              # case x
+            if not bare_x and rng.random() < 0.4:
+                have["xe"] = "e"
+                ch.append(D(xe, "e"))
+            if not bare_x and rng.random() < 0.25:
+                have["xd"] = rng.choice(["7", "6"])
+                ch.append(D(xd, have["xd"]))
+            if not bare_x and rng.random() < 0.75:
+                have["xm"] = "m"
+                ch.append(D(xnp, None, [D(xm, "m")]))
+            r3 = rng.random()
+            if r3 < 0.6:                          # case p
+                if rng.random() < 0.6:
+                    have["pe"] = "p"
+                    ch.append(D(pe, "p"))
+                if rng.random() < 0.25:
+                    have["pd"] = rng.choice(["9", "0"])
+                    ch.append(D(pd, have["pd"]))
+                if rng.random() < 0.75:
+                    have["pl"] = "l"
+                    ch.append(D(pnp, None, [D(pl, "l")]))
+            elif r3 < 0.8:
+                have["qe"] = "q"
+                ch.append(D(qe, "q"))
+        elif r2 < 0.85:
+            have["ye"] = "y"
+            ch.append(D(ye, "y"))
+    elif r < 0.9:
+        have["be"] = "b"
+        ch.append(D(be, "b"))
+    in_p = any(k in have for k in ("pe", "pd", "pl"))
+    in_x = in_p or any(k in have for k in ("xe", "xd", "xm", "qe"))
+    in_a = in_x or any(k in have for k in ("ad", "am", "adf", "ye"))
+    val = {"ad": have.get("ad", "5" if in_a else None), "xd": have.get("xd", "7" if in_x else None),
+           "pd": have.get("pd", "9" if in_p else None), "adf": have.get("adf", "3" if in_a else None)}
+    exp = set()
+    if in_a and "am" not in have:
+        exp.add("nomand")
+    if in_x and "xm" not in have:
+        exp.add("nomand")
+    if in_p and "pl" not in have:
+        exp.add("nomin")
+    if xpath:
+        if in_a and selv != "ok":
+            exp.add("nomust")
+        if in_x and selv == "no-x":
+            exp.add("nomust")
+        if rng.random() < 0.6:
+            ch.append(D(chk, "c"))
+            if not (val["ad"] == "5" and ("xe" not in have or val["xd"] == "7")):
+                exp.add("nomust")
+        if rng.random() < 0.5:
+            v = rng.choice(["7", "7", "6"])
+            ch.append(D(lr, v))
+            if val["xd"] != v:
+                exp.add("noinst")
+        if rng.random() < 0.4:
+            v = rng.choice(["3", "3", "8"])
+            ch.append(D(lr2, v))
+            if val["adf"] != v:
+                exp.add("noinst")
+        if rng.random() < 0.5:
+            ch.append(D(wh, "w"))
+            if not (val["pd"] == "9" or val["ad"] == "1"):
+                exp.add("nowhen")
+    return m, [D(top, None, ch)], exp
+
+
 def valid_instance(rng, m, ig):
     for _ in range(12):
         f = ig.forest(m)
@@ -645,7 +783,11 @@ class ValidModel(Comp):
     def gen(self, rng, tier, scale=1.0):
         pre = []
         for i in range(self.n(tier, 2500, 40000, scale)):
-            if i % 12 == 7:
+            if i % 12 == 3:
+                m, g, _ = nested_family(rng, xpath=False)
+                ig = yanggen.InstGen(rng, meta_prob=0.0)
+                f = g
+            elif i % 12 == 7:
                 m, g = unique_family(rng)
                 ig = yanggen.InstGen(rng, meta_prob=0.0)
                 f = g
@@ -1017,6 +1159,10 @@ class ValidMut(Oracle):
             m, g = unique_family(rng)
             v = validenc.py_violations(m, g)
             L.append(self.case(rng, m, g, "nouniq" if v else None))
+        # implicit nodes under nested choices decide must / leafref / when / mandatory
+        for i in range(self.n(tier, 250, 4000, scale)):
+            m, g, exp = nested_family(rng, xpath=(i % 5 != 0))
+            L.append(self.case(rng, m, g, "+".join(sorted(exp)) if exp else None))
         # XPath-dependent rules (not in the Coq models): fixed extra modules
         ymod = 'module m1 { yang-version 1.1; namespace "urn:verif:m1"; prefix m1;%s}' % EXTRA_YANG
         for kind in (None, "leafref", "must", "when", "instid", "iffeature"):
@@ -1053,7 +1199,7 @@ class ValidMut(Oracle):
         if cls not in ("type", "nokey"):
             # LYB as the source format: the parse-only tree printed as LYB, parsed with validation
             cmds += [("parse", "t8", "x", PARSE_ONLY | PARSE_STRICT, 0, hexs(x)), ("rt", "t8", "t9", "b", 0, PARSE_STRICT, 0)]
-            routes.append("R2")
+            routes.append("L2")
         if cls is None:
             # config/state placement: state data is refused when the caller asks for configuration only
             exp_state = "state" if any(not validenc._cfg(n.schema) for n, _, _ in yanggen.walk(g)) else "0"
@@ -1111,6 +1257,8 @@ class ValidMut(Oracle):
                 n = int(rt[1:])
                 got = vclass(r[k + n - 1]) if all(x == "0" for x in r[k:k + n - 1]) else "setup:" + "|".join(r[k:k + n - 1])
                 k += n
+                if re.fullmatch(r"P\d+", r[k - 1]):
+                    got = exp           # the LYB printer gave up (C01 lyb-hash-collision)
                 if got == "0" and exp == "nowhen":
                     return ("lyb-when-not-evaluated", "LYB parsed with validation: a node whose when is false is accepted")
                 if got == "other!rc=9/vecode=0" and exp == "0":
@@ -1149,6 +1297,8 @@ class ValidMut(Oracle):
                 k += n + 1
                 if got.split("!")[0] == "other":
                     got = exp           # lyd_new_path refuses some invalid constructions with its own errors
+            if "+" in exp and got in exp.split("+"):
+                got = exp               # several rules violated: the first one found is reported
             if accept_only and (got == "0") == (exp == "0") and not got.startswith("other"):
                 got = exp               # multi-error mode: the last logged error may be another one of the same instance
             if got != exp:
